@@ -65,6 +65,8 @@ func verifExact(text string) string {
 	return i.String()
 }
 
+var verifTimeDraws int
+
 func verifDrawClass(rng *rand.Rand, class string) verifDraw {
 	pick := func(xs ...string) string { return xs[rng.Intn(len(xs))] }
 	str := func(s string) verifDraw { return verifDraw{text: verifQuote(s), want: verifSanitise(s)} }
@@ -105,6 +107,11 @@ func verifDrawClass(rng *rand.Rand, class string) verifDraw {
 		return str(word() + pick("\t", "\n", "\t\n", "\n\n\t") + word())
 	case "str_time":
 		t := time.Date(1990+rng.Intn(60), time.Month(1+rng.Intn(12)), 1+rng.Intn(28), rng.Intn(24), rng.Intn(60), rng.Intn(60), 0, time.UTC)
+		verifTimeDraws++
+		if verifTimeDraws%3 == 0 {
+			/* the ends of what the format can say: year 1 (Go's zero instant), year 9999, the Unix epoch */
+			t = []time.Time{time.Date(1, 1, 1, 0, 0, 0, 0, time.UTC), time.Date(9999, 12, 31, 23, 59, 59, 0, time.UTC), time.Unix(0, 0).UTC(), time.Date(1, 1, 1, 0, 0, 1, 0, time.UTC)}[(verifTimeDraws/3)%4]
+		}
 		text := t.Format("2006-01-02T15:04:05Z")
 		switch rng.Intn(3) {
 		case 0:
